@@ -69,13 +69,51 @@ class StubHooks(LibHooks):
                 s.wcells('P')[(o.key(), F[name_][1])] = (o, F[name_][1], s.fresh_int('stub:' + name_, F[name_][1] * 8))
             o = Aff(F['error_flags'][0])
             s.wcells('P')[(o.key(), 4)] = (o, 4, Int(32, Aff(0)) if e == 0 else s.fresh_int('stub:error', 32, 1, 255))
-            # current_state keeps pointing into the state array (which entry is not modelled: all of it is havoced below)
+            # the state array is havoced; current_state points to "the current level after the call", an entry at an unknown
+            # index whose flags and current_type are tracked symbols: a function that looks at them after the call gets a
+            # decision-tree node the explorer resolves with the machine's actual state
             s.mem['STATE'] = {}
             s.owned.add('STATE')
             s.tags[('havoc', 'STATE')] = 'all'
             s.tags['J'] = False
+            i = sum(1 for c in s.tags['calls'] if c[0] != 'cmp') - 1
+            S_ = lay.state
+            lv = s.fresh('post:level', 8, 0, 254)
+            md = s.regions['STATE'].length
+            s.store.assume_ge0(md.sub(Aff.sym(lv).add(1).mul(lay.ssize)))
+            base = Aff.sym(lv).mul(lay.ssize)
+            o = Aff(F['current_state'][0])
+            s.wcells('P')[(o.key(), F['current_state'][1])] = (o, F['current_state'][1], Ptr('STATE', base))
+            post = []
+            for field in ('flags', 'current_type'):
+                w = S_[field][1] * 8
+                sym = s.fresh('post:%s' % field, w)
+                oo = base.add(S_[field][0])
+                s.wcells('STATE')[(oo.key(), S_[field][1])] = (oo, S_[field][1], Int(w, Aff.sym(sym)))
+                post.append((i, field, sym))
+            s.tags['post'] = s.tags.get('post', ()) + tuple(post)
             out.append((s, Int(1, Aff(r))))
         return out
+
+
+def post_conditions(s):
+    """what a path assumes about the level state after each loop call: ((call index, field, lo, hi, excluded values), ...)"""
+    S = s.store
+    out = []
+    for (i, field, sym) in s.tags.get('post', ()):
+        if sym not in S.ivl:
+            continue
+        lo, hi = S.ivl[sym]
+        excl = []
+        for e in S.neq:
+            sg = e.single() if len(e.t) == 1 else None
+            if sg and sg[0] == sym and sg[1] in (1, -1):
+                excl.append(-e.c * sg[1])
+        w = s.syminfo[sym].w
+        if lo == 0 and hi == (1 << w) - 1 and not excl:
+            continue
+        out.append((i, field, lo, hi, tuple(sorted(excl))))
+    return tuple(out)
 
 
 def wrapper_summary(mod, api, flags_alphabet, type_values):
@@ -148,7 +186,7 @@ def wrapper_summary(mod, api, flags_alphabet, type_values):
                 for (s, rv) in outs:
                     rc = s.store.const_of(rv.a) if isinstance(rv, Int) else None
                     need(rc is not None, 'C06: result of %s is not decided by (loop result, error) (flags 0x%x, type %d)' % (api, flags, ctype))
-                    paths.append({'calls': s.tags.get('calls', ()), 'ret': 1 if rc else 0})
+                    paths.append({'calls': s.tags.get('calls', ()), 'ret': 1 if rc else 0, 'post': post_conditions(s)})
                 res[(flags, ctype, dz)] = paths
     return res
 
@@ -282,8 +320,11 @@ class Machine:
             for (kinds, sign) in o.get('cmps', ()):
                 if kinds not in memo:
                     memo[kinds] = self.oracle(kinds, ti, nametok, want)
+                    if memo[kinds] == 2:
+                        return ('err', 'scope', 'the lookup compares the wanted name with a name that is not a field of the object the cursor is in '
+                                                '(a name of a nested or enclosing object)')
                 ok = ok and sign == memo[kinds]
-            if ok and not lookup or ok:
+            if ok:
                 # a name is compared with the previous one exactly when one is recorded at this level
                 has_order_cmp = any(k == ('level', 'local') for (k, sg) in o.get('cmps', ()))
                 records_name = any(f == 'current_name.bptr' and d_[0] == 'ptr' for ((lv_, f), d_) in o['eff'])
@@ -401,8 +442,9 @@ class Machine:
         paths = self.wrappers[api].get((f, c, depth == 0))
         need(paths is not None, '%s: no summary of %s for level flags 0x%x / type %d' % (self.prop, api, f, c))
         done = ()
+        seen_post = {}          # loop call index -> (flags, current_type) of the machine's current level after that call
         while True:
-            cands = [p for p in paths if p['calls'][:len(done)] == done]
+            cands = [p for p in paths if p['calls'][:len(done)] == done and self.post_ok(p, seen_post)]
             need(cands, '%s: summary of %s has no path for the call history %r' % (self.prop, api, done))
             finals = [p for p in cands if len(p['calls']) == len(done)]
             if finals:
@@ -431,7 +473,19 @@ class Machine:
                 return r
             st = r[1]
             done = done + ((mode, lookup, 1 if r[2] else 0, 0),)
+            lvl = st[2][max(st[1] - 1, 0)]
+            seen_post[sum(1 for c in done if c[0] != 'cmp') - 1] = {'flags': lvl[0], 'current_type': lvl[2]}
 
+    @staticmethod
+    def post_ok(p, seen_post):
+        for (i, field, lo, hi, excl) in p.get('post', ()):
+            v = seen_post.get(i)
+            if v is None:
+                continue
+            x = v[field]
+            if not (lo <= x <= hi) or x in excl:
+                return False
+        return True
 
 # ---- 3c. the reference cursor -----------------------------------------------------------------------------------------
 class Ref:
